@@ -10,12 +10,26 @@ Proof. destruct r1, r2; simpl; intros H; split; try reflexivity; lia. Qed.
 
 Lemma job_dir_distinct (fresh : nat -> string) :
   (forall a b, fresh a = fresh b -> a = b) ->
-  forall w f1 f2 k1 k2 r1 r2,
+  forall w1 w2 f1 f2 k1 k2 r1 r2,
     fixed_of f1 r1 = None -> fixed_of f2 r2 = None ->
-    job_dir fresh w f1 k1 r1 = job_dir fresh w f2 k2 r2 -> k1 = k2 /\ r1 = r2.
+    job_dir fresh w1 f1 k1 r1 = job_dir fresh w2 f2 k2 r2 -> w1 = w2 /\ k1 = k2 /\ r1 = r2.
 Proof.
-  intros Hinj w f1 f2 k1 k2 r1 r2 H1 H2. unfold job_dir, get_directory. rewrite H1, H2.
-  intros H. apply app_inv_head in H. inversion H as [H']. apply Hinj in H'. apply role_idx_inj. exact H'.
+  intros Hinj w1 w2 f1 f2 k1 k2 r1 r2 H1 H2. unfold job_dir, get_directory. rewrite H1, H2.
+  intros H. apply app_inj_tail in H. destruct H as [Hw H']. apply Hinj in H'. apply role_idx_inj in H'. tauto.
+Qed.
+
+Lemma beneath_app w l : beneath w (w ++ l) = true.
+Proof. unfold beneath. induction w as [|a w IH]; simpl; [reflexivity|]. rewrite String.eqb_refl. exact IH. Qed.
+(* a drawn directory lies directly under the work directory of its target, so it differs from every directory
+   that does not lie under that work directory - in particular from another job's fixed directory outside it *)
+Lemma job_dir_under fresh w f k r : fixed_of f r = None -> beneath w (job_dir fresh w f k r) = true.
+Proof. unfold job_dir, get_directory. intros ->. apply beneath_app. Qed.
+Lemma job_dir_vs_fixed fresh w1 w2 f1 f2 k1 k2 r1 r2 d :
+  fixed_of f1 r1 = None -> fixed_of f2 r2 = Some d -> beneath w1 d = false ->
+  job_dir fresh w1 f1 k1 r1 <> job_dir fresh w2 f2 k2 r2.
+Proof.
+  intros H1 H2 Hd E. assert (B := job_dir_under fresh w1 f1 k1 r1 H1). rewrite E in B.
+  unfold job_dir, get_directory in B. rewrite H2 in B. congruence.
 Qed.
 
 Lemma job_dir_fixed fresh w f k r d : fixed_of f r = Some d -> job_dir fresh w f k r = d.
